@@ -3,7 +3,7 @@
 # Confirms in a scratch worktree of /repo HEAD: demo passes without the change; with it the tree builds,
 # the repo's suite passes, and the demo fails. Prints a one-line verdict; removes the worktree.
 set -u
-SRC="$(cd "$1" && pwd)"; NAME="$(basename "$(dirname "$SRC")")-$(basename "$SRC")"
+SRC="$(cd "$1" && pwd)"; NAME="$(echo "$SRC" | tr "/" "_" | sed "s/^_tmp_//")"
 . /verif/env.sh
 W=/tmp/cm-$NAME; rm -rf "$W"; git -C /repo worktree prune
 git -C /repo worktree add -q --detach "$W" HEAD || exit 2
@@ -21,7 +21,18 @@ R0=$(rundemo); cp "$W/.demo.out" /tmp/cm-$NAME.without.log
 R1=$(rundemo); cp "$W/.demo.out" /tmp/cm-$NAME.with.log
 # demo test files must not be part of the suite run
 find "$W" -name 'demo_test.go' -newer "$SRC/patch.diff" -delete 2>/dev/null; (cd "$W" && git clean -fdq -e .demo -e .demo.out)
-(cd "$W" && go test -vet=off -count=1 ./... ) > /tmp/cm-$NAME.suite.log 2>&1; S=$?
-if [ $S -ne 0 ]; then FAILPK=$(grep -E "^(FAIL|---)" /tmp/cm-$NAME.suite.log | head -5 | tr '\n' ' '); else FAILPK=""; fi
+(cd "$W" && go test -json -vet=off -count=1 -timeout 40m ./... ) > /tmp/cm-$NAME.suite.json 2>/tmp/cm-$NAME.suite.err
+FAILPK=$(python3 - /tmp/cm-$NAME.suite.json <<'PY'
+import json,sys
+stable=set(json.load(open('/root/.vp/BASELINE.json'))['stable_pass']); res={}
+for ln in open(sys.argv[1]):
+    try: e=json.loads(ln)
+    except Exception: continue
+    if e.get('Test') and e.get('Action') in('pass','fail','skip'): res[e['Package']+'::'+e['Test']]=e['Action']
+bad=[t for t in sorted(stable) if res.get(t)!='pass']
+print(' '.join(bad[:6]))
+PY
+)
+if [ -z "$FAILPK" ]; then S=0; else S=1; fi
 echo "$NAME: demo-without=$R0 build=$B demo-with=$R1 suite=$S $FAILPK"
 git -C /repo worktree remove --force "$W"
